@@ -46,23 +46,69 @@ Definition text_of (d : jv) : option string :=
   | _ => None
   end.
 
+(* ---- which integer a text denotes: strconv.ParseInt syntax, or a decimal with fraction / exponent whose value
+   is integral ("1e3" is 1000, "1.0" is 1, "9007199254740993.0" is 9007199254740993; "1.5" denotes no integer).
+   The property only says "rejected, or exactly that integer": an implementation may accept either spelling. *)
+Inductive dstate := DInt | DFrac | DExp0 | DExp.
+Fixpoint dec_loop (s : string) (st : dstate) (m fl : Z) (eneg : bool) (e : Z) (nd ed : bool) : option (Z * Z) :=
+  match s with
+  | EmptyString =>
+      match st with
+      | DInt | DFrac => if nd then Some (m, - fl) else None
+      | DExp0 => None
+      | DExp => if ed then Some (m, (if eneg then - e else e) - fl) else None
+      end
+  | String c r =>
+      match st, digit_of c with
+      | DInt, Some d => dec_loop r DInt (m * 10 + d) fl eneg e true ed
+      | DFrac, Some d => dec_loop r DFrac (m * 10 + d) (fl + 1) eneg e true ed
+      | DExp0, Some d => dec_loop r DExp m fl eneg d nd true
+      | DExp, Some d => if e <? 100000 then dec_loop r DExp m fl eneg (e * 10 + d) nd true else None
+      | DInt, None =>
+          if Ascii.eqb c "." then dec_loop r DFrac m fl eneg e nd ed
+          else if (Ascii.eqb c "e" || Ascii.eqb c "E") && nd then dec_loop r DExp0 m fl eneg e nd ed else None
+      | DFrac, None => if (Ascii.eqb c "e" || Ascii.eqb c "E") && nd then dec_loop r DExp0 m fl eneg e nd ed else None
+      | DExp0, None =>
+          if Ascii.eqb c "+" then dec_loop r DExp m fl false e nd ed
+          else if Ascii.eqb c "-" then dec_loop r DExp m fl true e nd ed else None
+      | DExp, None => None
+      end
+  end.
+
+Definition decimal_int (s : string) : option Z :=
+  let '(neg, r) := match s with
+                   | String c r => if Ascii.eqb c "-" then (true, r) else if Ascii.eqb c "+" then (false, r) else (false, s)
+                   | EmptyString => (false, s) end in
+  match dec_loop r DInt 0 0 false 0 false false with
+  | Some (m, e) =>
+      let v := if m =? 0 then Some 0
+               else if 0 <=? e then (if e <=? 40 then Some (m * 10 ^ e) else None)
+               else if e <? -5000 then None
+               else (if m mod 10 ^ (- e) =? 0 then Some (m / 10 ^ (- e)) else None) in
+      option_map (fun z => if neg then - z else z) v
+  | None => None
+  end.
+
+Definition denotes_int (s : string) (z : Z) : bool :=
+  (match parse_signed s with Some z' => z =? z' | None => false end) ||
+  (match decimal_int s with Some z' => z =? z' | None => false end).
+
 (* the exact image of a scalar document value at a primitive kind *)
 Definition leaf_agrees (k : kind) (d : jv) (v : val) : bool :=
   match k, v with
   | KInt w, VInt z =>
       match d with
-      | JNum s _ | JStr s _ => match parse_signed s with Some z' => (z =? z') && fits_int w z | None => false end
+      | JNum s _ | JStr s _ => denotes_int s z && fits_int w z
       | _ => false end
   | KUint w, VInt z =>
       match d with
-      | JNum s _ | JStr s _ => match parse_signed s with Some z' => (z =? z') && fits_uint w z | None => false end
+      | JNum s _ | JStr s _ => denotes_int s z && fits_uint w z
       | _ => false end
   | KDur, VInt z =>
       fits_int W64 z &&
       match d with
-      | JNum s _ => match parse_signed s with Some z' => z =? z' | None => false end
-      | JStr s _ => (match parse_dur s with Some z' => z =? z' | None => false end) ||
-                  (match parse_signed s with Some z' => z =? z' | None => false end)
+      | JNum s _ => denotes_int s z
+      | JStr s _ => (match parse_dur s with Some z' => z =? z' | None => false end) || denotes_int s z
       | _ => false end
   | KBool, VBool b =>
       match d with
